@@ -25,7 +25,12 @@ def plan(tier, seed):
     jobs = [dict(kind='newline', maxlen=3 if tier == 'quick' else 4), dict(kind='newline-token')]
     for nl in ('\n', '\r\n', '\r'):
         for v2 in (False, True):
-            jobs.append(dict(kind='layout', nl=nl, prior_v2=v2, ncmd=2 if tier == 'quick' else 3))
+            if tier == 'quick':
+                jobs.append(dict(kind='layout', nl=nl, prior_v2=v2, ncmd=2))
+            else:
+                # 3 commands: ~72 000 layouts per line-break style; split over workers by the first command's style
+                for st in range(3):
+                    jobs.append(dict(kind='layout', nl=nl, prior_v2=v2, ncmd=3, max_paths=200000, pin={'style0': st}))
     jobs.append(dict(kind='errors', via='source-stub'))
     jobs.append(dict(kind='cli'))
     return jobs
@@ -439,7 +444,7 @@ def describe(tier):
                       'mpilot/program.py: from_source (lineno threading), add_command, run pre-pass', 'mpilot/commands.py, mpilot/params.py: lineno passed to every raised error'],
         'bounds': {'quick': 'line-break runs of <=3 characters over {CR, LF} with a symbolic counter; programs of 2 commands x 3 layout styles x 0-2 blank/comment lines before each element x trailing comments x {LF, CRLF, CR} '
                             'x a symbolic stale line counter and either value of the sticky EEMS-2 flag (arbitrary parse history in one step); 9 fault kinds x 2 positions with all 30+ node line numbers distinct symbolic integers',
-                   'thorough': 'runs of <=4 characters, 3 commands'},
+                   'thorough': 'runs of <=4 characters; 3 commands: all ~72 000 layouts per line-break style and prior parser state (3 pinned slices each)'},
         'outside': ['the CLI marker arithmetic (C13)', 'layouts beyond the rendered family', 'column positions'],
         'assumptions': ['A-lex: greedy match of the newline rule = longest match (checked with re.match on witnesses)', 'S-parser: for error linenos the loader is fed a stub parse tree with symbolic line numbers',
                         'the harness library mpv/nodes/mpvnodes.py provides the commands Node and Strict'],
